@@ -373,6 +373,9 @@ pub fn run(seed: u64, mode: &str, out: &mut impl Write) {
     let watchdog = Duration::from_secs(10);
     let results: Vec<Mutex<Option<String>>> = cases.iter().map(|_| Mutex::new(None)).collect();
     let next = AtomicUsize::new(0);
+    // confirmed hangs so far: after a dozen of them the remaining cases are skipped (the
+    // verdict is already a violation and every further hang costs more than a minute)
+    let hangs = AtomicUsize::new(0);
     let runners = 4;
     std::thread::scope(|s| {
         for _ in 0..runners {
@@ -380,6 +383,10 @@ pub fn run(seed: u64, mode: &str, out: &mut impl Write) {
                 let i = next.fetch_add(1, Ordering::SeqCst);
                 if i >= cases.len() { break; }
                 let c = &cases[i];
+                if hangs.load(Ordering::SeqCst) >= 12 {
+                    *results[i].lock().unwrap() = Some("terminated=skipped status=skipped-after-repeated-hangs ms=0".to_string());
+                    continue;
+                }
                 let t0 = Instant::now();
                 let mut r = run_child(c, watchdog);
                 if r.is_none() && !formerly_deadlocking(c) {
@@ -387,6 +394,7 @@ pub fn run(seed: u64, mode: &str, out: &mut impl Write) {
                     r = run_child(c, Duration::from_secs(60));
                 }
                 let ms = t0.elapsed().as_millis();
+                if r.is_none() { hangs.fetch_add(1, Ordering::SeqCst); }
                 let line = match r {
                     Some(l) => format!("terminated=1 {l} ms={ms}"),
                     None => format!("terminated=0 status=timeout ms={ms}"),
